@@ -372,6 +372,7 @@ class BraceParse():
         for elem in nested_list:
 
             if isinstance(elem, str):
+                elem = elem.strip()
                 if not self.semicolon_end and elem[-1] == ';':
                     # Delete the trailing semicolon
                     elem = elem[:-1]
